@@ -11,6 +11,7 @@ Definition qcnet_pos : qornode -> list Z -> Qc := cnet_pos Qc 0%Qc 1%Qc Qcmult.
 Definition qcnet_batch : qornode -> matrix -> nat -> list Qc := cnet_batch Qc 0%Qc 1%Qc Qcmult.
 Definition qwf_cnetb : qornode -> bool := wf_cnetb Qc 0%Qc.
 Definition qnorm_cnetb : qornode -> bool := norm_cnetb Qc 0%Qc 1%Qc Qcplus Qc_eq_bool.
+Definition qgroot_okb : qornode -> bool := groot_okb Qc 0%Qc Qc_eq_bool.
 
 (* all binary rows of a given width, in the order of itertools.product([0,1], repeat=n) *)
 Fixpoint all_bin (n : nat) : list (list Z) :=
@@ -44,7 +45,7 @@ Fixpoint row_codes (impl : list Qc) (sem pos gat : list Qc) : list Z :=
   | _, _, _, _ => []
   end.
 
-(* header (5 codes): 64 certificate wf_cnetb fails; 32 total mass (= value of the all-missing row)
+(* header (5 codes): 64 certificate wf_cnetb / groot_okb fails; 32 total mass (= value of the all-missing row)
    is not one (exactly for dyadic parameters, within 2e-5 for learned float parameters);
    16 sum of the model over all rows <> value of the all-missing row; 8 FIFO batch model <>
    row-wise positional model; 4 wrong number of implementation outputs.
@@ -59,7 +60,7 @@ Definition run_cncase (c : cncase) : list Z :=
   let gat := map (fun xs => qcnet_gat n (row_of sc xs)) rows in
   let pos := map (qcnet_pos n) rows in
   let mass := qcnet_val n row_none in
-  (if qwf_cnetb n then 0 else 64)%Z ::
+  (if qwf_cnetb n && qgroot_okb n then 0 else 64)%Z ::
   (if cn_exact c then (if qnorm_cnetb n && Qc_eq_bool mass 1%Qc then 0 else 32)
    else (if close 0 tol_mass mass 1%Qc then 0 else 32))%Z ::
   (if Qc_eq_bool (qsum sem) mass then 0 else 16)%Z ::
